@@ -14,7 +14,7 @@ ENV = dict(os.environ, NO_COLOR="1")
 
 # faults of gen_doc that are a faulty *binding* (type faults concern an object, not a binding)
 BINDING_FAULTS = ["unknown-property", "ill-typed", "unsupported-syntax", "dynamic-attached", "read-only", "unknown-signal",
-                  "duplicate-binding", "duplicate-grouped", "duplicate-attached", "unknown-attached-type", "ill-typed-pseudo"]
+                  "duplicate-binding", "duplicate-grouped", "duplicate-attached", "unknown-attached-type", "ill-typed-pseudo", "unused-attached"]
 # further single faulty bindings, planted by this check: (kind, [(property, source)], needs widget kind)
 EXTRA_FAULTS = {
     # constant scalar bound to a gadget / variant typed property
